@@ -508,14 +508,6 @@ fn format(opt: opt::Opt) -> Result<i32> {
                     let path = entry.path().to_owned(); // TODO: stop to_owned?
                     let opt = opt.clone();
 
-                    // The same file can be reached through several arguments under different
-                    // spellings (`a.lua` and `./a.lua`, or `.` and `a.lua`)
-                    let seen_key = path.strip_prefix("./").unwrap_or(&path).to_owned();
-                    if seen_files.contains(&seen_key) {
-                        continue;
-                    }
-                    seen_files.insert(seen_key);
-
                     if path.is_file() {
                         // If the user didn't provide a glob pattern, we should match against our default one
                         if use_default_glob && should_respect_ignores(opt.as_ref(), path.as_path())
@@ -540,6 +532,15 @@ fn format(opt: opt::Opt) -> Result<i32> {
                             && should_respect_ignores(opt.as_ref(), &path)
                             && path_is_stylua_ignored(&path, opt.search_parent_directories)?
                         {
+                            continue;
+                        }
+
+                        // The same file can be reached through several arguments under different
+                        // spellings (`a.lua` and `./a.lua`, or `.` and `a.lua`): process it once.
+                        // Only a file that is going to be processed counts as seen: the same path
+                        // may be skipped under one spelling and selected under another.
+                        let seen_key = path.strip_prefix("./").unwrap_or(&path).to_owned();
+                        if !seen_files.insert(seen_key) {
                             continue;
                         }
 
